@@ -24,6 +24,7 @@ REPO = os.environ.get("VERIF_REPO", "/repo")
 TLA_JAR = "/opt/veriftools/tla/tla2tools.jar"
 TLA_CP = TLA_JAR + ":/opt/veriftools/tla/CommunityModules-deps.jar"
 NCPU = os.cpu_count() or 4
+JOBS = int(os.environ.get("VERIF_JOBS") or min(8, NCPU))     # parallel TLC processes per check
 
 GOENV = dict(GOFLAGS="-mod=mod", GOPROXY="off", GOSUMDB="off", GOTOOLCHAIN="local")
 
@@ -194,7 +195,7 @@ class Check:
             self._meta += 1
             mid = self._meta
         meta = self.path("meta%d" % mid)
-        jopts = ["-XX:+UseParallelGC", "-Xmx" + heap]
+        jopts = ["-XX:+UseParallelGC", "-XX:ParallelGCThreads=%d" % (2 if str(workers) == "1" else 4), "-Xmx" + heap]
         if stack:
             jopts.append("-Xss" + stack)
         if dfs:
@@ -448,7 +449,7 @@ def validate_scenarios(c, family, module, trace_path, cfg=None, reset_op="reset"
     if not starts or starts[0] != 0:
         raise Infra("trace does not start with a %s line" % reset_op)
     nsc = len(starts)
-    chunks = chunks or min(NCPU, max(1, len(lines) // lines_per_chunk))
+    chunks = chunks or min(JOBS, max(1, len(lines) // lines_per_chunk))
     per = (nsc + chunks - 1) // chunks
     bounds = starts + [len(lines)]
     pieces = []
@@ -501,7 +502,7 @@ def validate_scenarios(c, family, module, trace_path, cfg=None, reset_op="reset"
                 return
             seg = seg[s1:]
 
-    with ThreadPoolExecutor(max_workers=min(len(pieces), NCPU)) as ex:
+    with ThreadPoolExecutor(max_workers=min(len(pieces), JOBS)) as ex:
         futs = [ex.submit(work, i, a, b) for i, (a, b) in enumerate(pieces)]
         for f in futs:
             f.result()
